@@ -29,6 +29,16 @@ CHECKS.update({
    text="Every law of the statement is evaluated on every string up to the length bound (exhaustive: true for that finite domain, ~12M evaluations in the quick tier) and on generated long paths; helpers raising on any string is a violation.",
    note="Trusted: the law table itself (transcribed from the statement); MockProvider subclasses only supply sep/alt_sep/case/win_paths to the Provider helpers under test."),
 })
+CHECKS.update({
+ "C09": dict(engine="storage-model", category="exploration", design_ref="2/C09",
+   technique="model-based property testing: Hypothesis-generated storage call sequences (incl. close/reopen and cross-tag id probes) against a dict reference model for four backends; sampled multi-thread workloads with a merged-model oracle",
+   text="Each backend is driven by generated call sequences and compared with a dictionary after every call (return values, error/no-error, read_all exactness per tag and globally, reopen durability). The concurrency clause is sampled with 8 real threads on thread-private rows.",
+   note="Trusted: the dict model. Thread schedules are sampled, not enumerated. MockStorage defects (KF-17) are excluded by construction and replayed as known findings."),
+ "C19": dict(engine="hcache", category="exploration", design_ref="2/C19",
+   technique="model-based property testing: Hypothesis-generated cache operation sequences against a dictionary model with the documented eviction rules, plus a structural invariant evaluated by walking the real tree after every operation",
+   text="After every generated operation the real cache is walked from its root (child keys, parent links, acyclicity, unique ids, id map == reachable ids, get_path/get_oid inverse) and every getter is compared with the dictionary model over the whole (small) path/id universe, for case-sensitive and case-insensitive conventions.",
+   note="Trusted: the dictionary model (evict id owner, evict path owner, id-less ancestors). The 'id owned by an ancestor of the target path' family is an open finding (KF-19) and excluded by construction."),
+})
 NOT_YET = {}
 
 def main():
